@@ -457,6 +457,7 @@ def _summarize(prog, qual, own=True):
         key = ("loop", kind, lp.get("depth", 0), space.key())
         S.effects.setdefault(key, []).append(pre)
         S.raw.append(("effect", "loop:%s:%d" % (kind, lp.get("depth", 0)), (space,), pre))
+    order_seq = {}
     for e in ev.events:
         rb["conds"] = None
         pre = cform(e["conds"])
@@ -530,8 +531,18 @@ def _summarize(prog, qual, own=True):
                     name = "m:%s@%s" % (".".join(reversed(chain)), cn(e["recv"], e["conds"]).key())
             args = tuple(ckey(a, e["conds"]) for a in e["args"])
             kws = tuple(sorted((k, ckey(v, e["conds"])) for k, v in e["kwargs"].items()))
+            # calls made for their effect on ONE object happen in an order that is part of what the function does (ax.set_xticks
+            # before ax.set_xlim is not ax.set_xlim before ax.set_xticks): the sequence of methods per receiver is compared too
+            if name.startswith("m:") and "@" in name:
+                order_seq.setdefault(name.split("@", 1)[1], []).append(name.split("@", 1)[0][2:])
+            elif "." in name and not name.startswith("self."):
+                order_seq.setdefault(name.rsplit(".", 1)[0], []).append(name.rsplit(".", 1)[1])
             S.effects.setdefault(("call", name, args, kws), []).append(pre)
             S.raw.append(("effect", "call:" + name, (craw(tuple(e["args"])), craw(tuple(v for k, v in sorted(e["kwargs"].items()))), tuple(sorted(e["kwargs"]))), pre))
+    for rk, seq in sorted(order_seq.items()):
+        if len(set(seq)) >= 2:
+            S.effects.setdefault(("order", rk, repr(seq)), []).append(("const", True))
+            S.raw.append(("effect", "order:" + rk, (repr(seq),), ("const", True)))
     return S
 
 
